@@ -315,8 +315,8 @@ func (ex *Exec) eqVal(t types.Type, x, y value) *smt.Term {
 		}
 		return b.Bool(y.([]value) == nil && xv == nil)
 	case *ssa.Function:
-		yf, _ := y.(*ssa.Function)
-		if yf == nil && y != nil {
+		yf, isFn := y.(*ssa.Function)
+		if !isFn && y != nil {
 			return b.False
 		}
 		return b.Bool(xv == yf)
